@@ -1618,7 +1618,9 @@ func (d *Driver) FamJSON(perType int) {
 		}
 	}
 	// nil messages and values that are not pointers
-	nils := map[string]interface{}{"nil": nil, "typed-nil": (*timestamppb.Timestamp)(nil), "typed-nil-gogo-plain": (*gogodesc.DescriptorProto)(nil)}
+	nils := map[string]interface{}{"nil": nil, "typed-nil": (*timestamppb.Timestamp)(nil), "typed-nil-gogo-plain": (*gogodesc.DescriptorProto)(nil),
+		// nil pointers of types that bring their own MarshalJSON / UnmarshalJSON: the nil rule comes before the delegation
+		"typed-nil-struct": (*structpb.Struct)(nil), "typed-nil-value": (*structpb.Value)(nil), "typed-nil-list": (*structpb.ListValue)(nil)}
 	seenFl := map[string]bool{}
 	for _, ti := range d.Types {
 		if !seenFl[ti.Flavour] && ti.Set == "default" {
